@@ -1,8 +1,20 @@
 (* C16  Append mode never loses what is already in the file; overwrite mode replaces it (data level; the
    file round trip itself is C01 / C10 / C09 and the byte-level write step is tied by the check). *)
+From Coq Require Import String.   (* string literals of the examples; imported first so the list names win *)
 From Coq Require Import NArith ZArith List Bool.
 From DictIO Require Import Chars Str Value Scalar KeyPath SDict TreeSpec MiscSpec SDictProofs CliProofs.
 Import ListNotations.
+
+(* data of the non-vacuity examples: the file content [s] and two dicts appended to it *)
+Module C16_ex.
+  Definition ka := KS (of_string "a").  Definition kb := KS (of_string "b").
+  Definition kc := KS (of_string "c").  Definition kd := KS (of_string "d").
+  Definition one := Leaf (SInt 1).  Definition two := Leaf (SInt 2).
+  Definition s : list (key * tree) := [(ka, Dict [(kb, one); (kc, Lst [one])]); (kc, two)].
+  Definition d1 : list (key * tree) :=
+    [(kd, one); (ka, Dict [(kb, two); (kd, Dict [(ka, two)]); (kc, Dict [(ka, one)])]); (kc, Dict [(ka, one)])].
+  Definition d2 : list (key * tree) := [(ka, Dict [(kb, Lst []); (kd, Dict [(kb, one)])]); (kb, two)].
+End C16_ex.
 
 (* whatever the sequence of writes: after an append every leaf that was in the file is still there *)
 Theorem C16_append_keeps : forall s d p v,
@@ -11,12 +23,36 @@ Theorem C16_append_keeps : forall s d p v,
 Proof. exact append_keeps. Qed.
 Print Assumptions C16_append_keeps.
 
+Example C16_append_keeps_nonvacuous :
+  get_dpath (Dict C16_ex.s) [C16_ex.ka; C16_ex.kb] = Some (Leaf (SInt 1)) /\
+  get_dpath (Dict C16_ex.d1) [C16_ex.ka; C16_ex.kb] = Some (Leaf (SInt 2)) /\
+  exists s', spec_write (Some C16_ex.s) (C16_ex.d1, true) = Some s' /\ s' <> C16_ex.s /\
+             get_dpath (Dict s') [C16_ex.ka; C16_ex.kb] = Some (Leaf (SInt 1)).
+Proof.
+  assert (H : get_dpath (Dict C16_ex.s) [C16_ex.ka; C16_ex.kb] = Some (Leaf (SInt 1))) by (vm_compute; reflexivity).
+  refine (conj H (conj _ _)); [vm_compute; reflexivity|].
+  destruct (C16_append_keeps C16_ex.s C16_ex.d1 _ _ H) as [s' [E1 E2]].
+  exists s'. refine (conj E1 (conj _ E2)). vm_compute in E1. injection E1 as <-. vm_compute. discriminate.
+Qed.
+
 (* ... for every number of further appends *)
 Theorem C16_appends_keep : forall ds s p v,
   get_dpath (Dict s) p = Some (Leaf v) ->
   exists s', spec_writes (map (fun d => (d, true)) ds) (Some s) = Some s' /\ get_dpath (Dict s') p = Some (Leaf v).
 Proof. exact appends_keep. Qed.
 Print Assumptions C16_appends_keep.
+
+Example C16_appends_keep_nonvacuous :
+  get_dpath (Dict C16_ex.s) [C16_ex.ka; C16_ex.kb] = Some (Leaf (SInt 1)) /\
+  exists s', spec_writes (map (fun d => (d, true)) [C16_ex.d1; C16_ex.d2; C16_ex.d1]) (Some C16_ex.s) = Some s' /\
+             get_dpath (Dict s') [C16_ex.ka; C16_ex.kb] = Some (Leaf (SInt 1)) /\
+             get_dpath (Dict s') [C16_ex.ka; C16_ex.kd; C16_ex.kb] = Some (Leaf (SInt 1)).
+Proof.
+  assert (H : get_dpath (Dict C16_ex.s) [C16_ex.ka; C16_ex.kb] = Some (Leaf (SInt 1))) by (vm_compute; reflexivity).
+  split; [exact H|].
+  destruct (C16_appends_keep [C16_ex.d1; C16_ex.d2; C16_ex.d1] C16_ex.s _ _ H) as [s' [E1 E2]].
+  exists s'. refine (conj E1 (conj E2 _)). vm_compute in E1. injection E1 as <-. vm_compute. reflexivity.
+Qed.
 
 (* overwrite (and any write to a file that does not exist) makes the file contain exactly the new dict *)
 Theorem C16_overwrite : forall st d, spec_write st (d, false) = Some d /\ spec_write None (d, true) = Some d.
@@ -30,3 +66,21 @@ Theorem C16_append_adds : forall s d p x, wf (Dict d) = true -> get_dpath (Dict 
    (exists r t, strict_prefix r p /\ r <> [] /\ get_dpath (Dict s) r = Some t /\ (forall kvs, t <> Dict kvs))).
 Proof. exact append_adds. Qed.
 Print Assumptions C16_append_adds.
+
+(* non-vacuity: both alternatives occur -- a.d.a is added, c.a is blocked by the existing leaf c *)
+Example C16_append_adds_nonvacuous :
+  wf (Dict C16_ex.d1) = true /\
+  get_dpath (Dict C16_ex.d1) [C16_ex.ka; C16_ex.kd; C16_ex.ka] = Some C16_ex.two /\
+  get_dpath (Dict C16_ex.d1) [C16_ex.kc; C16_ex.ka] = Some C16_ex.one /\
+  exists s', spec_write (Some C16_ex.s) (C16_ex.d1, true) = Some s' /\
+    get_dpath (Dict s') [C16_ex.ka; C16_ex.kd; C16_ex.ka] = Some C16_ex.two /\
+    get_dpath (Dict s') [C16_ex.kc; C16_ex.ka] = None /\
+    ((exists y, get_dpath (Dict s') [C16_ex.kc; C16_ex.ka] = Some y) \/
+     (exists r t, strict_prefix r [C16_ex.kc; C16_ex.ka] /\ r <> [] /\ get_dpath (Dict C16_ex.s) r = Some t /\ (forall kvs, t <> Dict kvs))).
+Proof.
+  assert (H1 : wf (Dict C16_ex.d1) = true) by (vm_compute; reflexivity).
+  assert (H2 : get_dpath (Dict C16_ex.d1) [C16_ex.kc; C16_ex.ka] = Some C16_ex.one) by (vm_compute; reflexivity).
+  refine (conj H1 (conj _ (conj H2 _))); [vm_compute; reflexivity|].
+  destruct (C16_append_adds C16_ex.s C16_ex.d1 _ _ H1 H2) as [s' [E1 E2]].
+  exists s'. refine (conj E1 (conj _ (conj _ E2))); vm_compute in E1; injection E1 as <-; vm_compute; reflexivity.
+Qed.
